@@ -241,7 +241,7 @@ Definition check_mac1 (sdev : kid) (body m1 : term) : bool := mac_ok (mac1_key (
    out of the way by the harness with VerifShiftHandshakeTimes). *)
 
 Record peer := { p_id : kid; p_hs : hs; p_kp : slots; p_staged : N;
-                 p_cookie : option term;      (* cookieGenerator.mac2.cookie while cookieSet is fresh *)
+                 p_cookie : option (term * N);  (* cookieGenerator.mac2.cookie and whole seconds since cookieSet *)
                  p_lastmac1 : option term }.  (* cookieGenerator.mac2.lastMAC1 / hasLastMAC1 *)
 Record dev := { d_static : kid; d_peers : list peer;
                 d_olds : list kid }.   (* static keys the device had before (ghost: history of SetPrivateKey) *)
@@ -255,7 +255,20 @@ Definition sent_mac1 (p : peer) (m1 : term) : peer :=
   {| p_id := p_id p; p_hs := p_hs p; p_kp := p_kp p; p_staged := p_staged p; p_cookie := p_cookie p;
      p_lastmac1 := Some m1 |}.
 Definition got_cookie (p : peer) (c : term) : peer :=
-  {| p_id := p_id p; p_hs := p_hs p; p_kp := p_kp p; p_staged := p_staged p; p_cookie := Some c;
+  {| p_id := p_id p; p_hs := p_hs p; p_kp := p_kp p; p_staged := p_staged p; p_cookie := Some (c, 0);
+     p_lastmac1 := p_lastmac1 p |}.
+
+(* AddMacs: MAC2 is filled only while  time.Since(cookieSet) <= CookieRefreshTime.  Ages are whole
+   seconds moved by the harness (VerifShiftPeerCookie), far from the boundary; a scenario itself
+   lasts milliseconds. *)
+Definition held_cookie (p : peer) : option term :=
+  match p_cookie p with
+  | Some (c, age) => if age <? CookieRefreshTimeSecs then Some c else None
+  | None => None
+  end.
+Definition age_peer (secs : N) (p : peer) : peer :=
+  {| p_id := p_id p; p_hs := p_hs p; p_kp := p_kp p; p_staged := p_staged p;
+     p_cookie := match p_cookie p with Some (c, age) => Some (c, age + secs) | None => None end;
      p_lastmac1 := p_lastmac1 p |}.
 
 Definition hs_list (d : dev) : list (kid * hs) := map (fun p => (p_id p, p_hs p)) (d_peers d).
@@ -287,7 +300,8 @@ Inductive ev :=
 | EKick (to : kid) (e : kid) (ts idx : N)          (* SendHandshakeInitiation(false) (hook) *)
 | ERestart                                         (* Device.Down(); Device.Up(): every peer Stop()ped and Start()ed *)
 | ECookie (receiver : N) (nonce : N) (c : term)    (* datagram: cookie reply, c = the sealed cookie field *)
-| ESetPrivateKey (new : kid).                      (* UAPI private_key=: Device.SetPrivateKey *)
+| ESetPrivateKey (new : kid)                       (* UAPI private_key=: Device.SetPrivateKey *)
+| EAge (secs : N).                                 (* secs seconds pass for every peer's cookie (hook VerifShiftPeerCookie) *)
 
 (* Handshake.Clear(): the per-handshake secrets and the local index go; the
    CONFIGURATION of the peer (presharedKey, remoteStatic, precomputedStaticStatic)
@@ -321,7 +335,7 @@ Definition send_initiation (d : dev) (p : peer) (e : kid) (ts idx : N) : dev * l
   match create_init (d_static d) (p_hs p) e ts idx with
   | None => (d, [])
   | Some (h', m) =>
-    let m' := stamp_init (TPub (p_id p)) (p_cookie p) m in
+    let m' := stamp_init (TPub (p_id p)) (held_cookie p) m in
     (upd_peer d (sent_mac1 (upd p h' (p_kp p) (p_staged p)) (i_mac1 m')), [OInit (p_id p) m'])
   end.
 
@@ -382,7 +396,7 @@ Definition dev_step (d : dev) (e : ev) : dev * list out :=
           match create_resp h1 er idx with
           | None => (upd_peer d (upd p h1 (p_kp p) (p_staged p)), [])
           | Some (h2, r) =>
-            let r' := stamp_resp (TPub pid) (p_cookie p) r in
+            let r' := stamp_resp (TPub pid) (held_cookie p) r in
             match begin_session h2 (p_kp p) with
             | None => (upd_peer d (sent_mac1 (upd p h2 (p_kp p) (p_staged p)) (r_mac1 r')), [])
             | Some (h3, s3, _) =>
@@ -466,4 +480,6 @@ Definition dev_step (d : dev) (e : ev) : dev * list out :=
          that peer; the real device deadlocks there (design finding F3c), so this is modelled as not happening. *)
       if Nat.eqb new (d_static d) || existsb (fun p => Nat.eqb (p_id p) new) (d_peers d) then (d, [])
       else ({| d_static := new; d_peers := map (rekey_peer new) (d_peers d); d_olds := d_static d :: d_olds d |}, [])
+  | EAge secs =>
+      ({| d_static := d_static d; d_peers := map (age_peer secs) (d_peers d); d_olds := d_olds d |}, [])
   end.
